@@ -3,7 +3,7 @@ NEXT MCNext
 CONSTANTS
   HandlerStacks <- LStacks2
   AddShapes <- BothShape
-  MaxAdds = 1
+  MaxAdds = 2
   MaxCycles = 2
 INVARIANT StartupInOrder
 INVARIANT ShutdownReversed
